@@ -72,7 +72,7 @@ class Forest(WeightedGraph):
         else:
             if np.size(parents) != V:
                 raise ValueError('Incorrect size for parents')
-            if parents.max() > self.V:
+            if parents.min() < 0 or parents.max() >= self.V:
                 raise ValueError('Incorrect value for parents')
 
             self.parents = np.reshape(parents, self.V).astype(np.int_)
